@@ -124,3 +124,6 @@ for e in all_entries():
     quick = e.id in QUICK_IDS and (not e.has("tagged") or e.id in ("int.E", "octs.EI", "bool.EE")) and e.id not in ("seq_nest", "seqof_seq", "set_mixed", "set")
     OBLIGATIONS.append(entry_obl("oneshot_cat", oneshot_cat, e, extra={"codec": I(0, 2), "defMode": B, "chunk": I(0, 2), "cut": I(0, 40)}, narrow=True,
                                  budget=120, extra_shards=[{"codec": C(c), "cut": I(lo, hi)} for c in range(3) for (lo, hi) in ((0, 7), (8, 15), (16, 40))], tiers=("quick", "thorough") if quick else ("thorough",)))
+
+# quick tier: entries added for other properties' sake run in the thorough tier only here
+demote(OBLIGATIONS, ['seq_optc', 'set_chx', 'seq_hitags', 'seq_hitags.E', 'seq_wide', 'seq_optnull', 'seqof_choice_cons'])
